@@ -107,6 +107,46 @@ theorem prev_succ (h : Nat) (n : Nat) (w : Bool) (p : SForm) : Eqv h (.prev (n+1
   · have : ¬ (n + 1 ≤ k) := by omega
     simp [h1, this]
 
+/-- nested nexts of the same strength add up: `m > (n > p)` is `(m+n) > p` -/
+theorem next_add (h : Nat) (m n : Nat) (w : Bool) (p : SForm) : Eqv h (.next m w (.next n w p)) (.next (m + n) w p) := by
+  intro W T k _
+  simp only [tht]
+  by_cases h1 : k + m ≤ h
+  · by_cases h2 : k + (m + n) ≤ h
+    · have : k + m + n ≤ h := by omega
+      simp [h1, h2, this, Nat.add_assoc]
+    · have : ¬ (k + m + n ≤ h) := by omega
+      simp [h1, h2, this]
+  · have : ¬ (k + (m + n) ≤ h) := by omega
+    simp [h1, this]
+
+/-- … and so do nested previous operators of the same strength -/
+theorem prev_add (h : Nat) (m n : Nat) (w : Bool) (p : SForm) : Eqv h (.prev m w (.prev n w p)) (.prev (m + n) w p) := by
+  intro W T k _
+  simp only [tht]
+  by_cases h1 : m ≤ k
+  · by_cases h2 : m + n ≤ k
+    · have : n ≤ k - m := by omega
+      have e : k - (m + n) = k - m - n := by omega
+      simp [h1, h2, this, e]
+    · have : ¬ (n ≤ k - m) := by omega
+      simp [h1, h2, this]
+  · have : ¬ (m + n ≤ k) := by omega
+    simp [h1, this]
+
+/-- nexts of different strength do not add up: a strong next of a weak next is true one state before the end of the trace,
+    whatever the operand (`> >: p` is not `2 > p`) -/
+theorem next_mixed_not_add : ¬ EqvT 1 (.next 1 false (.next 1 true (.atom "p"))) (.next 2 false (.atom "p")) := by
+  intro e
+  have := e (fun _ _ => false) 0 (by omega)
+  simp [docSem, tht] at this
+
+/-- … nor do previous operators of different strength (`< <: p` is not `2 < p`) -/
+theorem prev_mixed_not_add : ¬ EqvT 1 (.prev 1 false (.prev 1 true (.atom "p"))) (.prev 2 false (.atom "p")) := by
+  intro e
+  have := e (fun _ _ => false) 1 (by omega)
+  simp [docSem, tht] at this
+
 theorem evF_eq (h : Nat) (p : SForm) : Eqv h (.evF p) (.unt (.kw .ktrue) p) := by
   intro W T k _
   rw [tht_evF, tht_unt]
